@@ -17,14 +17,14 @@ import (
 
 // Loc is a statically known memory location behind an SSA pointer value.
 type Loc struct {
-	kind  string // field | elem | cell | global
-	sv    string // state variable name holding the array
-	base  string // ref (field, cell) or array id (elem)
-	idx   string // element index (elem)
-	typ   types.Type // type of the stored value
-	sub   bool   // location is an embedded struct: its "address" is a sub-object ref
+	kind   string     // field | elem | cell | global
+	sv     string     // state variable name holding the array
+	base   string     // ref (field, cell) or array id (elem)
+	idx    string     // element index (elem)
+	typ    types.Type // type of the stored value
+	sub    bool       // location is an embedded struct: its "address" is a sub-object ref
 	subRef string
-	space string // "" / "F": heap; "V": value space (struct values and non-escaping struct locals)
+	space  string // "" / "F": heap; "V": value space (struct values and non-escaping struct locals)
 }
 
 type deferRec struct {
@@ -35,19 +35,19 @@ type deferRec struct {
 }
 
 type Frame struct {
-	fn     *ssa.Function
-	env    map[ssa.Value]string
-	locs   map[ssa.Value]*Loc
-	tuples map[ssa.Value][]string
-	depth  int
-	id     int
-	free   map[*ssa.FreeVar]string // closure bindings (terms)
+	fn      *ssa.Function
+	env     map[ssa.Value]string
+	locs    map[ssa.Value]*Loc
+	tuples  map[ssa.Value][]string
+	depth   int
+	id      int
+	free    map[*ssa.FreeVar]string // closure bindings (terms)
 	freeLoc map[*ssa.FreeVar]*Loc
-	defers []*deferRec
-	top    bool
+	defers  []*deferRec
+	top     bool
 	// for invariants / spec evaluation
-	rets   []retRec
-	specEnv map[string]specVal // extra names (entry values)
+	rets     []retRec
+	specEnv  map[string]specVal // extra names (entry values)
 	closures map[ssa.Value]*ssa.MakeClosure
 	curBlock *ssa.BasicBlock
 }
@@ -223,6 +223,20 @@ func (vc *VC) execFunction(fr *Frame, st *State, args []string) (*State, []strin
 			vals[i] = r.vals[k]
 		}
 		res[k] = vc.def(vc.sortOf(fn.Signature.Results().At(k).Type()), iteChain(pcs, vals), "ret")
+		rt := fn.Signature.Results().At(k).Type()
+		if isStringType(rt) || vc.sortOf(rt) == "Slice" {
+			var alts []*Shape
+			known := false
+			for _, v := range vals {
+				if _, ok := vc.shapes[v]; ok {
+					known = true
+				}
+				alts = append(alts, vc.shapeOf(v))
+			}
+			if known {
+				vc.setShape(res[k], shAlt(alts...))
+			}
+		}
 	}
 	return out, res
 }
@@ -241,6 +255,17 @@ func (vc *VC) bindPhi(fr *Frame, phi *ssa.Phi, b *ssa.BasicBlock, edges []edgeSt
 		vals = append(vals, vc.value(fr, e.st, phi.Edges[idx]))
 	}
 	fr.env[phi] = vc.def(vc.sortOf(phi.Type()), iteChain(pcs, vals), "phi_"+phi.Comment)
+	if isStringType(phi.Type()) {
+		alts := make([]*Shape, len(vals))
+		for i, v := range vals {
+			alts[i] = vc.shapeOf(v)
+		}
+		sh := shAlt(alts...)
+		if sh.K == "alt" && len(alts) > 1 {
+			sh = &Shape{K: "alt", Alts: alts, Guard: fr.id*100000 + b.Index + 1}
+		}
+		vc.setShape(fr.env[phi], sh)
+	}
 }
 
 func predIndex(b, from *ssa.BasicBlock) int {
@@ -384,6 +409,16 @@ func (vc *VC) enterLoop(fr *Frame, h *ssa.BasicBlock, edges []edgeState, ord int
 		v := vc.fresh(vc.sortOf(phi.Type()), "loopv_"+phi.Comment)
 		fr.env[phi] = v
 		vc.typeFacts(cur, v, phi.Type())
+		if isStringType(phi.Type()) {
+			vc.n++
+			id := vc.n
+			if vc.loopEntry == nil {
+				vc.loopEntry, vc.loopBacks, vc.loopRefOf, vc.loopShapes = map[int]*Shape{}, map[int][]*Shape{}, map[string]int{}, map[int]*Shape{}
+			}
+			vc.loopEntry[id] = vc.shapeOf(entryPhi[phi])
+			vc.loopRefOf[v] = id
+			vc.setShape(v, &Shape{K: "ref", ID: id})
+		}
 	}
 	if lc != nil {
 		for i, inv := range lc.Invariants {
@@ -422,6 +457,20 @@ func firstPos(b *ssa.BasicBlock) token.Pos {
 
 // backEdge checks invariant preservation for the edge from -> h.
 func (vc *VC) backEdge(fr *Frame, from, h *ssa.BasicBlock, st *State, ord int) {
+	// string shapes of loop-carried strings
+	for _, instr := range h.Instrs {
+		phi, ok := instr.(*ssa.Phi)
+		if !ok {
+			break
+		}
+		if !isStringType(phi.Type()) {
+			continue
+		}
+		if id, ok := vc.loopRefOf[fr.env[phi]]; ok {
+			bv := vc.value(fr, st, phi.Edges[predIndex(h, from)])
+			vc.loopBacks[id] = append(vc.loopBacks[id], vc.shapeOf(bv))
+		}
+	}
 	lc := vc.loopContract(fr, ord)
 	if lc == nil {
 		return
